@@ -32,7 +32,7 @@ var (
 	out  = flag.String("out", "", "")
 )
 
-const slack = 40 * time.Millisecond // scheduling slack tolerated on top of one polling period
+const slack = 100 * time.Millisecond // scheduling slack tolerated on top of one polling period (a loaded machine delays goroutines by tens of ms)
 
 var mu sync.Mutex
 
